@@ -15,10 +15,12 @@ for f in sorted(glob.glob(os.path.join(HERE, "seeded", "*", "meta.json"))):
         txt = open(notes).read().strip().splitlines()
         what = " ".join(l.strip("# ").strip() for l in txt[:3])[:150].replace("|", "/")
     ran = ", ".join(f"{c}:{r['exit']}" for c, r in m.get("checks", {}).items())
+    first = m.get("earlier_evaluations")
+    first = ("; ".join(", ".join(e["detected_by"]) or "none" for e in first)) if first else "="
     rows.append(f"| {m['id']} | {m['property']} | {what} | {'yes' if m.get('confirmed') else 'NO'} | "
-                f"{', '.join(m.get('detected_by', [])) or '**none**'} | {ran} |")
-table = "\n".join(["| id | property | change (first lines of the author's notes) | confirmed | detected by | checks run (exit) |",
-                   "|---|---|---|---|---|---|"] + rows)
+                f"{', '.join(m.get('detected_by', [])) or '**none**'} | {first} | {ran} |")
+table = "\n".join(["| id | property | change (first lines of the author's notes) | confirmed | detected by (now) | earlier evaluations (= : unchanged) | checks run (exit) |",
+                   "|---|---|---|---|---|---|---|"] + rows)
 p = os.path.join(HERE, "DESIGN.md")
 s = open(p).read()
 s = re.sub(r"<!-- SEEDED-TABLE-BEGIN -->.*<!-- SEEDED-TABLE-END -->",
